@@ -239,8 +239,21 @@ def run_trace_alloc(case):
 # native multi-rank simulation (threads)
 
 
-def threaded(world, fn, timeout=120):
-    """runs fn(rank) on `world` simulated ranks (threads, in-process process group); returns {rank: result} or raises on hang"""
+def threaded(world, fn, timeout=120, attempts=3):
+    """runs fn(rank) on `world` simulated ranks (threads, in-process process group); returns {rank: result} or raises TimeoutError on a
+    PERSISTENT hang.  The thread simulator itself occasionally dead-locks under CPU load (observed on the unchanged tree inside the
+    lazy, non-collective process-group creation of get_device_mesh — the mechanism of known finding F6), so a run that does not finish
+    is repeated (fresh threads, fresh in-process world) before it is reported."""
+    last = None
+    for k in range(max(1, attempts)):
+        try:
+            return _threaded_once(world, fn, timeout if k == 0 else max(30, timeout // 2))
+        except TimeoutError as e:
+            last = e
+    raise last
+
+
+def _threaded_once(world, fn, timeout):
     import torch
     from torch.testing._internal.common_distributed import spawn_threads_and_init_comms
     import torch.distributed as dist
